@@ -411,8 +411,22 @@ pub fn worker_main(check: &Check, tier: Tier, seed: u64, w: u64, nw: u64, known:
     let recheck_every: u64 = if tier == Tier::Thorough { 20 } else { 40 };
     let mut errors: Vec<String> = vec![];
     let mut failure: Option<Value> = None;
-    let mut i = w;
-    while i < n && errors.is_empty() && failure.is_none() {
+    // case indices are dealt to the workers in rotated blocks (block q gives worker w the index
+    // q*nw + (w+q) mod nw): a plain stride would alias with the scenario weights and the re-run
+    // period and leave a few workers with all the expensive cases
+    let mut q = 0u64;
+    loop {
+        let i = q * nw + (w + q) % nw;
+        q += 1;
+        if i >= n {
+            if (q - 1) * nw >= n {
+                break;
+            }
+            continue;
+        }
+        if !(errors.is_empty() && failure.is_none()) {
+            break;
+        }
         let (scn, case) = check.case_for(seed, i, tier);
         // Runs execute in this process (fork-per-run does not scale on this VM); anything that
         // matters is re-executed in a fresh forked process below and must agree exactly.
@@ -457,7 +471,6 @@ pub fn worker_main(check: &Check, tier: Tier, seed: u64, w: u64, nw: u64, known:
                 }
             }
         }
-        i += nw;
     }
     json!({
         "runs": agg.runs, "steps": agg.steps, "deferred": agg.deferred, "tasks": agg.tasks, "sim_ms": agg.sim_ms,
